@@ -163,6 +163,13 @@ def run(tier):
                 ck.violation("mean function value (build_mean, mean_and_gradients, __call__ agree with the definition)",
                              {"X": c["X"], "mean": md, "want": want_mx, "build_mean": got_mx, "call_at_queries": got_pts, "want_queries": want_mq},
                              site=f"{mname}.build_mean")
+            first_ = mean.build_mean(mth)
+            keep_ = np.array(first_, dtype=float).copy()
+            mean.build_mean(mth + 0.5)
+            mean.mean_and_gradients(mth - 0.25)
+            if not np.array_equal(np.asarray(first_, dtype=float), keep_):
+                ck.violation("a mean vector returned earlier does not change when the mean function is evaluated again with other parameters",
+                             {"X": c["X"], "mean": md, "returned_first": keep_, "same_array_later": np.asarray(first_, dtype=float)}, site=f"{mname}.build_mean:returned-buffer")
             err = G.mean_consistency(md, c["X"], 2.0 ** 40 + 1234567 * 2.0 ** -12)
             if not err <= 1e-9:
                 ck.violation("build_mean, mean_and_gradients and __call__ are one function, also for coordinates far from zero (non-dyadic parameters)",
